@@ -313,6 +313,17 @@ def _type_check_local_reference(expression, ir, errors):
         )
 
 
+def _is_integer_type(type_definition):
+    """Returns True if type_definition has `[is_integer: true]`."""
+    # This runs before the attribute checker, which reports duplicated
+    # attributes; ir_util.get_attribute asserts that there are none, so only the
+    # first `is_integer` is handed to it.
+    for attribute in type_definition.attribute:
+        if ir_util.get_attribute([attribute], attributes.IS_INTEGER) is not None:
+            return ir_util.get_boolean_attribute([attribute], attributes.IS_INTEGER)
+    return None
+
+
 def unbounded_expression_type_for_physical_type(type_definition):
     """Gets the ExpressionType for a field of the given TypeDefinition.
 
@@ -327,7 +338,7 @@ def unbounded_expression_type_for_physical_type(type_definition):
       The returned ExpressionType will not have any bounds set.
     """
     # TODO(bolms): Add a `[value_type]` attribute for `external`s.
-    if ir_util.get_boolean_attribute(type_definition.attribute, attributes.IS_INTEGER):
+    if _is_integer_type(type_definition):
         return ir_data.ExpressionType(integer=ir_data.IntegerType())
     elif (
         not type_definition.name.canonical_name.module_file
